@@ -448,7 +448,14 @@ pub fn generate_specs(prop: &dyn Prop, tier: Tier) -> Vec<(&'static str, Spec)> 
                     }
                 }
             }
-            let s = prop.adjust_spec(s, &mut r);
+            let mut s = prop.adjust_spec(s, &mut r);
+            // spelling: a quarter with the fewest parentheses the grammar allows (flat `a | b | c`
+            // and `a b c` chains), an eighth with redundant ones; the trees are the same
+            match out.len() % 8 {
+                1 | 5 => s.paren = oracle::spec::ParenStyle::Minimal,
+                3 => s.paren = oracle::spec::ParenStyle::Redundant((out.len() as u64).wrapping_mul(0x9E37_79B9_7F4A_7C15)),
+                _ => {}
+            }
             out.push((profile.name, s));
         }
     }
@@ -936,6 +943,12 @@ pub fn run_collect(prop: &dyn Prop, tier: Tier) -> (Evidence, i32) {
                             match prop.judge(&ctx, vars, &models, gots) {
                                 Verdict::Ok { nontrivial } => {
                                     add_facts(&mut st.facts, &models[0].facts);
+                                    if base.input.len() >= 256 {
+                                        *st.facts.entry("input_256_bytes_or_more").or_insert(0) += 1;
+                                    }
+                                    if base.input.len() > 65_536 {
+                                        *st.facts.entry("input_over_65536_bytes").or_insert(0) += 1;
+                                    }
                                     if nontrivial {
                                         let h = case_hash(si, base);
                                         if st.nontrivial.insert(h) && st.samples.len() < 3 {
